@@ -59,6 +59,10 @@ def rt_int(x=0, base=10):
                 cps = cps[1:]
         if not cps:
             raise ValueError("invalid literal for int()")
+        if base == 16 and not neg and all(not isinstance(c, int) and c.hexsrc is not None for c in cps):
+            tok, _, width, _ = cps[0].hexsrc
+            if len(cps) == width and all(c.hexsrc[0] is tok and c.hexsrc[1] == k for k, c in enumerate(cps)):
+                return tok.x  # int(format(x, '0<width>X'), 16) == x
         total = 0
         for c in cps:
             if isinstance(c, int):
@@ -241,6 +245,8 @@ def rt_fmt(value, conv, spec):
             return value
         raise Unsupported("format spec on symbolic string")
     if isinstance(value, SInt):
+        if isinstance(spec, str) and len(spec) >= 2 and spec[-1] in "Xx" and spec[0] == "0" and spec[1:-1].isdigit():
+            return hex_digits(value, int(spec[1:-1]), spec[-1] == "X")
         v = unique_int(value)
         if v is None:
             return "sym-int"  # message text only: a symbolic integer with several feasible values
@@ -262,6 +268,28 @@ def rt_fmt(value, conv, spec):
         return format(value, spec)
     except Unsupported:
         return "sym-fmt"
+
+
+def hex_digits(x, width, upper):
+    """format(x, '0<width>X') for a symbolic non-negative int that fits in `width` digits."""
+    import z3
+
+    eng = core.engine()
+    if eng._check(z3.Or(x.e < 0, x.e >= 16 ** width)) != z3.unsat:
+        raise Unsupported("hex formatting of a symbolic int that may not fit the width")
+    out = []
+    token = HexToken(x)
+    for k, i in enumerate(range(width - 1, -1, -1)):
+        d = (x.e / (16 ** i)) % 16
+        cp = CP(z3.If(d < 10, 48 + d, (55 if upper else 87) + d))
+        cp.hexsrc = (token, k, width, upper)
+        out.append(cp)
+    return SStr(out)
+
+
+class HexToken:
+    def __init__(self, x):
+        self.x = x
 
 
 def unique_int(x):
